@@ -75,7 +75,7 @@ enum WPc {
 #[derive(Clone, Debug, PartialEq, Eq, Hash)]
 struct WState {
     pc: WPc,
-    frames: u8,
+    frames: u16,
     term_full: bool,
     term_rx_alive: bool,
     panicked: bool,
